@@ -35,6 +35,17 @@ Reset ==
   /\ st' = InitState(Len(dbs)) /\ cur' = Ev.id
   /\ UNCHANGED <<nrej, nacc, nskip, dbs, schema>>
 
+\* a declaration preceding the main pipeline: a let-bound relation
+\* (let / into / module member) or a user function
+DeclLet ==
+  /\ IsEvent("Decl") /\ Ev.d.kind = "let"
+  /\ st' = [st EXCEPT !.env = Append(st.env, [name |-> Ev.d.name, short |-> Ev.d.short, steps |-> Ev.d.steps])]
+  /\ UNCHANGED <<cur, nrej, nacc, nskip, dbs, schema>>
+DeclFunc ==
+  /\ IsEvent("Decl") /\ Ev.d.kind = "func"
+  /\ st' = [st EXCEPT !.fns = Append(st.fns, [name |-> Ev.d.name, params |-> Ev.d.params, named |-> Ev.d.named, body |-> Ev.d.body])]
+  /\ UNCHANGED <<cur, nrej, nacc, nskip, dbs, schema>>
+
 \* one action per transform kind (so that -coverage shows which were taken)
 StepOf(op) ==
   /\ IsEvent("Step") /\ Ev.s.op = op
@@ -87,7 +98,7 @@ Failure ==
   /\ \/ IsEvent("ExecError") \/ IsEvent("Panic")
   /\ Verdict(FALSE, st.status \notin {"ok", "error"}, Ev.event)
 
-TNext == \/ Database \/ Reset
+TNext == \/ Database \/ Reset \/ DeclLet \/ DeclFunc
          \/ DoFrom \/ DoSelect \/ DoDerive \/ DoFilter \/ DoSort \/ DoTake
          \/ DoAggregate \/ DoGroup \/ DoWindow \/ DoJoin \/ DoAppend \/ DoBad
          \/ Observe \/ CompileError \/ Failure
